@@ -364,6 +364,7 @@ class _:
     requires = {"at-block-start": "at_block_start(self)", "m": "midx(m) == CUR() - 1"}
     ensures = {
         "C03.raw-region": "raw_is_region(result._raw, self.bibstr, ms(old(CUR()) - 1), self._current_char_index + 1)",
+        "C01.block-shape": "not isnone(result._parser_metadata) and fresh(result._parser_metadata) and isstr(result._value)",
         "C02.string-block": "fresh(result) and exists(e, old(CUR()) < e < NMARKS(), mk(e) == 5 and only_newlines(old(CUR()) + 1, e) and exists(r, e < r < NMARKS(), mk(r) == 2 and bal(e + 1, r) == 0 and no_close_before(e + 1, r) and no_block_start(old(CUR()), r) and CUR() == r + 1 and self._current_char_index == ms(r) and isstr(result._raw) and sval(result._raw) == self.bibstr[ms(old(CUR()) - 1):ms(r) + 1] and result._key == self.bibstr[me(old(CUR()) - 1) + 1:ms(e)].strip() and isstr(result._value) and sval(result._value) == self.bibstr[me(e):ms(r)].strip()))",
         "C03.start-line": "isint(result._start_line_in_file) and ival(result._start_line_in_file) == nls(0, old(CUR()) - 1) - 1",
         "C04.scan": "scan(self) and midx(self._unaccepted_mark) == -1",
@@ -400,6 +401,7 @@ class _:
     ensures = {
         "C03.raw-region": "raw_is_region(result._raw, self.bibstr, ms(old(CUR()) - 1), self._current_char_index + 1)",
         "C02.entry": "implies(cls_is(result, 'Entry'), entry_read(as_ref(result, 'ref:Entry'), self, old(CUR()) - 1, m_val, ghost('ec')))",
+        "C01.block-shape": "implies(cls_is(result, 'Entry'), not isnone(result._parser_metadata) and fresh(result._parser_metadata) and fresh(as_ref(result, 'ref:Entry')._fields) and forall(i, 0 <= i < len(as_ref(result, 'ref:Entry')._fields), fresh(as_ref(result, 'ref:Entry')._fields[i]) and isstr(as_ref(result, 'ref:Entry')._fields[i]._value)))",
         "C09.duplicates-flagged": "implies(cls_is(result, 'Entry'), forall((i, j), 0 <= i < j < len(as_ref(result, 'ref:Entry')._fields), as_ref(result, 'ref:Entry')._fields[i]._key != as_ref(result, 'ref:Entry')._fields[j]._key))",
         "C09.duplicate-fields-wrapper": "implies(not cls_is(result, 'Entry'), cls_is(result, 'DuplicateFieldKeyBlock') and fresh(result) and not isnone(as_ref(result, 'ref:DuplicateFieldKeyBlock')._ignore_error_block) and cls_is(as_ref(as_ref(result, 'ref:DuplicateFieldKeyBlock')._ignore_error_block, 'ref:Block'), 'Entry') and entry_read(as_ref(as_ref(result, 'ref:DuplicateFieldKeyBlock')._ignore_error_block, 'ref:Entry'), self, old(CUR()) - 1, m_val, ghost('ec')) and same(result._raw, as_ref(as_ref(result, 'ref:DuplicateFieldKeyBlock')._ignore_error_block, 'ref:Entry')._raw) and same(result._start_line_in_file, as_ref(as_ref(result, 'ref:DuplicateFieldKeyBlock')._ignore_error_block, 'ref:Entry')._start_line_in_file))",
         "C04.scan": "scan(self) and midx(self._unaccepted_mark) == -1 and no_block_start(old(CUR()), CUR()) and self._current_char_index == ms(CUR() - 1) and mk(CUR() - 1) == 2",
@@ -548,8 +550,12 @@ SPLIT_GHOSTS = ["ghost:cur:int", "ghost:fe:arr", "ghost:fr:arr", "ghost:fks:arr"
                 "ghost:gkind:arr", "ghost:gb:arr", "ghost:gi:arr", "ghost:glast:int"]
 
 
-def _split_variant(doc, library_sort, extra_requires, target_clause, footprint):
+def _split_variant(doc, library_sort, extra_requires, target_clause, footprint, extra_invariants=None, extra_ensures=None):
     d = {k: v for k, v in vars(_SplitContract).items() if not k.startswith("__")}
+    if extra_invariants:
+        d["loops"] = {1: dict(d["loops"][1], invariant=dict(d["loops"][1]["invariant"], **extra_invariants))}
+    if extra_ensures:
+        d["ensures"] = dict(d["ensures"], **extra_ensures)
     d["__doc__"] = _SplitContract.__doc__ + "\n\n    " + doc
     d["sorts"] = {"self": "ref:Splitter", "library": library_sort, "result": "ref:Library"}
     d["requires"] = dict(d["requires"], **extra_requires)
@@ -564,6 +570,10 @@ def _split_variant(doc, library_sort, extra_requires, target_clause, footprint):
 contract(S + "split#new")(_split_variant(
     "Variant: no target library -- a fresh, well-formed Library is returned.", "none", {},
     "WF(result) and fresh(result)", []))
+# Not composed: that the result satisfies parsed_ok (contracts/library.py), the precondition under which the two default
+# middlewares are proved exception-free (contracts/defaultparse.py).  The handlers export the per-block facts
+# (C01.block-shape) and Library.add the index facts (C01+C08.index-values); carrying them through split()'s loop as a
+# quantified invariant over the block list was not discharged by z3 / cvc5 (pair quantifier through list updates).
 contract(S + "split#into")(_split_variant(
     "Variant: a target library is given -- it is the library returned, and it stays well formed.", "ref:Library",
     {"library": "WF(library)"},
